@@ -121,7 +121,8 @@ const C52: u64 = 0x4330_0000_0000_0000;
 // Float to uint conversion with rounding to nearest even number. Formula
 // follows the form (x_f32 + C23_f32) - C23_u32, where x is the component. From
 // Hacker's Delight, p. 378-380.
-// Works on the range of [-0.25, 2^23] for f32, [-0.25, 2^52] for f64.
+// Works on the range of [-0.25, 2^23] for f32, [-0.25, 2^52] for f64, so the
+// scaled value is clamped to [0, uint::MAX] before the magic number is added.
 //
 // Special cases:
 // NaN -> uint::MAX
@@ -135,7 +136,7 @@ macro_rules! convert_float_to_uint {
                 #[inline]
                 fn into_stimulus(self) -> $direct_target {
                     let max = $direct_target::max_intensity() as $float;
-                    let scaled = (self * max).min(max);
+                    let scaled = (self * max).min(max).max(0.0);
                     let f = scaled + f32::from_bits(C23);
                     (f.to_bits().saturating_sub(C23)) as $direct_target
                 }
@@ -148,13 +149,36 @@ macro_rules! convert_float_to_uint {
                     #[inline]
                     fn into_stimulus(self) -> $target {
                         let max = $target::max_intensity() as $temporary;
-                        let scaled = (self as $temporary * max).min(max);
+                        let scaled = (self as $temporary * max).min(max).max(0.0);
                         let f = scaled + f64::from_bits(C52);
                         (f.to_bits().saturating_sub(C52)) as  $target
                     }
                 }
             )+
         )*
+    };
+}
+
+// Float to uint conversion for targets with more than 52 bits, where the
+// scaled value doesn't fit below the magic number. The value is rounded and
+// then converted with a saturating cast instead.
+//
+// Special cases:
+// NaN -> uint::MAX
+// inf -> uint::MAX
+// -inf -> 0
+macro_rules! convert_float_to_large_uint {
+    ($float: ident; $($target: ident),+) => {
+        $(
+            impl IntoStimulus<$target> for $float {
+                #[inline]
+                fn into_stimulus(self) -> $target {
+                    let max = $target::max_intensity() as f64;
+                    let scaled = (f64::from(self) * max).min(max);
+                    Round::round(scaled) as $target
+                }
+            }
+        )+
     };
 }
 
@@ -167,7 +191,7 @@ macro_rules! convert_double_to_uint {
                 #[inline]
                 fn into_stimulus(self) -> $direct_target {
                     let max = $direct_target::max_intensity() as $double;
-                    let scaled = (self * max).min(max);
+                    let scaled = (self * max).min(max).max(0.0);
                     let f = scaled + f64::from_bits(C52);
                     (f.to_bits().saturating_sub(C52)) as $direct_target
                 }
@@ -264,7 +288,8 @@ impl IntoStimulus<f64> for f32 {
         f64::from(self)
     }
 }
-convert_float_to_uint!(f32; direct (u8, u16); via f64 (u32, u64, u128););
+convert_float_to_uint!(f32; direct (u8, u16); via f64 (u32););
+convert_float_to_large_uint!(f32; u64, u128);
 
 impl IntoStimulus<f32> for f64 {
     #[inline]
@@ -272,7 +297,8 @@ impl IntoStimulus<f32> for f64 {
         self as f32
     }
 }
-convert_double_to_uint!(f64; direct (u8, u16, u32, u64, u128););
+convert_double_to_uint!(f64; direct (u8, u16, u32););
+convert_float_to_large_uint!(f64; u64, u128);
 
 convert_uint_to_larger_uint!(u8; next u16 (u32, u64, u128));
 
